@@ -86,6 +86,8 @@ struct CancelTwin {
     /// after a cancelled disconnect(): call poll() once before calling disconnect() again
     poll_before_reissue: bool,
     pub polled_before_reissue: bool,
+    /// a PINGREQ was unanswered when the `advance_after` step was issued
+    pub ping_open_at_advance: bool,
     /// after the (possibly cancelled) request: let go of the handle, connect again, poll
     reconnect_after: bool,
     /// (with `reconnect_after`) the application never calls the request at all
@@ -219,6 +221,7 @@ impl Driver for CancelTwin {
                 }
                 3 => {
                     if let Some(us) = self.advance_after.take() {
+                        self.ping_open_at_advance = v.snap.ping_timeout.is_some();
                         return Some(Step::Advance(us));
                     }
                     if self.then_qos0 && !self.qos0_done {
@@ -380,7 +383,8 @@ impl Check for C13 {
         // with keep-alive on, half of the time the PINGREQ falls due right before the request, so
         // that the cancelled call is (also) in the middle of keep-alive traffic
         // (not while a PINGREQ is unanswered: the peer would look dead by the time of the request)
-        let ping_open = plog.probes.iter().rev().nth(1).and_then(|p| p.snap.as_ref()).is_some_and(|s| s.ping_timeout.is_some());
+        // (a PINGREQ that is queued but not written yet counts as well: the first call writes it)
+        let ping_open = plog.probes.iter().rev().nth(1).and_then(|p| p.snap.as_ref()).is_some_and(|s| s.ping_timeout.is_some() || s.tx.control.iter().any(|c| c.kind == 12));
         let mut advance_after: Option<u64> = None;
         if cfg.keepalive > 0 && !ping_open && rng.chance(1, 2) {
             let eff = cfg.keepalive as u64 * 1_000_000;
@@ -402,6 +406,8 @@ impl Check for C13 {
             out.count("requests_followed_by_a_qos0_publish", 1);
         }
         let polled_flag = std::cell::Cell::new(false);
+        let ping_flag = std::cell::Cell::new(false);
+        let c_connect_ok = std::cell::Cell::new(true);
         // ... and half of those issue one more request on the handle first (it is refused if the
         // DISCONNECT was parked or sent, and then must leave nothing behind)
         let other_op: Option<Step> = if reconnect_after && rng.chance(1, 2) {
@@ -425,15 +431,19 @@ impl Check for C13 {
         let other_at = std::cell::Cell::new(None::<usize>);
         let skip_flag = std::cell::Cell::new(false);
         let run = |cancels: Vec<usize>| -> (RunLog, Shared, Vec<usize>) {
-            let mut d = CancelTwin { prefix: prefix.clone().into(), request: request.clone(), cancels: cancels.into(), stage: 0, drain_left: 0, reissued: false, request_ops: vec![], poll_before_reissue: false, polled_before_reissue: false, reconnect_after, skip_request: skip_flag.get(), other_op: other_op.clone(), other_op_at: None, advance_after, tail: VecDeque::new(), then_qos0, qos0_done: false };
+            let mut d = CancelTwin { prefix: prefix.clone().into(), request: request.clone(), cancels: cancels.into(), stage: 0, drain_left: 0, reissued: false, request_ops: vec![], poll_before_reissue: false, polled_before_reissue: false, ping_open_at_advance: false, reconnect_after, skip_request: skip_flag.get(), other_op: other_op.clone(), other_op_at: None, advance_after, tail: VecDeque::new(), then_qos0, qos0_done: false };
             let (log, world) = run_case(&cfg, seed, &mut d, prefix.len() + 400);
             polled_flag.set(d.polled_before_reissue);
+            if d.ping_open_at_advance {
+                ping_flag.set(true);
+            }
             other_at.set(d.other_op_at);
             (log, world, d.request_ops)
         };
         // 2. reference
         let (alog, aworld, aops) = run(vec![]);
         let a_obs = observe(&alog, &aworld.borrow());
+        let a_ping = ping_flag.replace(false);
         // 2b. (reconnect_after) second reference: the application drops the handle without ever
         // calling disconnect(): a disconnect() given up before it completed either took effect or
         // left no trace, and what it did before it was given up (finishing owed packets) is the
@@ -442,7 +452,9 @@ impl Check for C13 {
             skip_flag.set(true);
             let (clog, cworld, _) = run(vec![]);
             skip_flag.set(false);
+            ping_flag.set(false);
             let o = observe(&clog, &cworld.borrow());
+            c_connect_ok.set(matches!(clog.ops.iter().rev().find(|o| o.kind == "connect").map(|o| &o.outcome), Some(Outcome::Ok(_))));
             Some(o)
         } else {
             None
@@ -468,6 +480,13 @@ impl Check for C13 {
             let bw = bworld.borrow();
             let b_obs = observe(&blog, &bw);
             out.evaluations += 1;
+            // the time step behind the request is meant to make a PINGREQ fall due, not to let
+            // one expire: where a PINGREQ was still unanswered at that step in either run, when
+            // it went out (and so whether it expires) depends on the number of calls made
+            if ping_flag.replace(false) || a_ping {
+                out.count("variants_skipped_pingreq_unanswered_at_the_time_step", 1);
+                continue;
+            }
             out.count("twins_compared", 1);
             // classify the cancellation for coverage
             let first = &blog.ops[bops[0]];
@@ -522,7 +541,10 @@ impl Check for C13 {
                 }
                 // the reconnect itself fares as in the uncancelled run
                 let last_connect = |l: &RunLog| l.ops.iter().rev().find(|o| o.kind == "connect").map(|o| o.outcome.clone());
-                if matches!(last_connect(&alog), Some(Outcome::Ok(_))) && !matches!(last_connect(&blog), Some(Outcome::Ok(_))) {
+                // (... and as in a run in which the request was never made: a call given up early
+                // may have consumed less than the completed one, e.g. not the acknowledgement
+                // that frees the room the next CONNECT is encoded in)
+                if matches!(last_connect(&alog), Some(Outcome::Ok(_))) && c_connect_ok.get() && !matches!(last_connect(&blog), Some(Outcome::Ok(_))) {
                     out.violations.push(viol("C13", format!("C13/{}/next-connect-fails", kind), format!("{} cancelled at await {:?}, handle dropped: the next connect() returned {:?} (uncancelled run: {:?})", kind, cancels, last_connect(&blog), last_connect(&alog))));
                 }
                 let (la, lb) = (a_obs.packets.last(), b_obs.packets.last());
@@ -536,7 +558,7 @@ impl Check for C13 {
                 let ok = match (la, lb, lc) {
                     // (a read given up half-way may leave an acknowledgement owed that the next
                     // connection carries: for poll / recv / drive only the CONNECT is compared)
-                    (Some(la), Some(lb), Some(_)) if kind != "disconnect" => la.first() == lb.first(),
+                    (Some(la), Some(lb), Some(lc)) if kind != "disconnect" => la.first() == lb.first() || lb == lc,
                     (Some(la), Some(lb), Some(lc)) => la == lb || lb == lc || (la.first() == lb.first() && subseq(la, lb) && subseq(lb, lc)),
                     _ => false,
                 };
